@@ -155,7 +155,7 @@ def check(ctx):
                 if thr is None and first == "set":
                     continue
                 I, st = ctx.interp(), State()
-                scores = arr("scores", "S0", inp=False)
+                scores = arr("scores", "S0")  # the scorer's own storage: origin ('in', 'scores')
                 thr_v = vconst(None) if thr is None else scalar("thr")
                 first_v = vconst(None) if first is None else scalar("first")
                 sel, Q = arr("sel", "S", inp=False, dtype="int"), integer("Q")
@@ -171,7 +171,8 @@ def check(ctx):
                 cfg = f"threshold={thr} type={ttype} first_score={first}"
                 ctx.compare("R-EXCL", f"_get_best_new_selection == reference [{cfg}]", N, r, ref, ctx.site(P.method(base, "_get_best_new_selection")), cfg)
                 muts = [e for e in I.events if e["kind"] == "mutate" and e["target"].term == scores.term]
-                ctx.ob("R-EXCL", f"the scorer's own table is not modified by the mask [{cfg}]", not [e for e in I.events if e["kind"] == "mutate" and any(o_ == ("fresh",) for o_ in e["target"].orig) is False], "mask applied to a copy", ctx.site(P.method(base, "_get_best_new_selection")), cfg, nontrivial=False)
+                hits = [e for e in I.events if e["kind"] == "mutate" and ("in", "scores") in e["target"].orig]
+                ctx.ob("R-EXCL", f"the scorer's own table is not modified by the mask [{cfg}]", not hits, f"in-place write into the scorer's table: `{hits[0].get('src')}`" if hits else "mask applied to a copy", ctx.site(P.method(base, "_get_best_new_selection")), cfg)
     # ---------------- fit level: resolution, truncation, support --------------------------
     _fit_level(ctx, N)
     _support(ctx, N)
